@@ -396,3 +396,5 @@ def run(ctx):
     ctx.borrow(c12.r2, {'C12.R2': 'C05.R9'},
                'a field decodes with the divisor and range of the type object derive() hands out; a cache key that omits one '
                'of them lets an earlier definition decide the value printed for a later one')
+    import rules.C09 as _c09
+    _c09.symbol_layout_rule(ctx, 'C05.R10')
